@@ -1,7 +1,7 @@
 #!/bin/bash
 # merge_all.sh <letter>: pick the builder's fix commits, copy its property files, known findings, manifest texts, reports
 X="$1"
-declare -A RX=( [K]="C18|c18|PyFuns|DualHelpers|DualCoverage|InferSize|py2lean|gen_tables|Model/Compile.lean|Model/Key.lean|Model/SliceSpec" [A]="C02|c02|C17|c17|CtxTable" [B]="C03|c03" [C]="C08|c08" [D]="C04|c04|C01|c01" [E]="C05|c05|C06|c06|LockTable|CacheTable" [F]="C09|c09|C20|c20" [G]="C12|c12|C11|c11|C10|c10|Dtypes" [H]="C13|c13|C14|c14" [I]="C15|c15|C16|c16|TcTables" [J]="C07|c07|C19|c19" )
+declare -A RX=( [K]="C18|c18|PyFuns|DualHelpers|DualCoverage|InferSize|CheckKeys|ParseTo|py2lean|gen_tables|Model/Compile.lean|Model/Key.lean|Model/SliceSpec" [A]="C02|c02|C17|c17|CtxTable" [B]="C03|c03" [C]="C08|c08" [D]="C04|c04|C01|c01" [E]="C05|c05|C06|c06|LockTable|CacheTable" [F]="C09|c09|C20|c20" [G]="C12|c12|C11|c11|C10|c10|Dtypes" [H]="C13|c13|C14|c14" [I]="C15|c15|C16|c16|TcTables" [J]="C07|c07|C19|c19" )
 declare -A PR=( [K]="C18" [A]="C02 C17" [B]="C03" [C]="C08" [D]="C04 C01" [E]="C05 C06" [F]="C09 C20" [G]="C12 C11 C10" [H]="C13 C14" [I]="C15 C16" [J]="C07 C19" )
 cd /verif
 harness/pick_fixes.sh b_$X | cut -c1-120
